@@ -787,7 +787,6 @@ func c18DiffPath(a, b []string) string {
 	return ""
 }
 
-
 func c18Mutates(kind string) bool {
 	switch kind {
 	case "get", "head", "listv1", "listv2", "mplistparts", "mplistuploads", "gettagging", "getbuckettagging", "getacl", "getpolicy",
